@@ -180,7 +180,102 @@ def exhaustive(tier, seed, shard=0, nshards=1):
     return stats.export(), list(fails.values())
 
 
+@st.composite
+def epoch_cases(draw):
+    """Integer time stamps of epoch magnitude (nanoseconds since 1970, > 2**53) with the default unit ns."""
+    pv, pu = draw(st.sampled_from([(1, 'ms'), (500, 'us'), (16, 'us'), (1, 's'), (100, 'ms')]))
+    tol = draw(st.sampled_from(TOLS))
+    ng = draw(st.sampled_from([1, 2, 3, 5, 8, 12]))
+    ks = [draw(st.sampled_from([-15, -2, -1, 0, 0, 0, 1, 2, 3, 4, 8, 16, 17, 32])) for _ in range(ng)]
+    t0 = draw(st.sampled_from([1700000000000000000, 1700000000123456789, 2 ** 53 + 1, 2 ** 60 + 12345, 9007199254740993]))
+    return {'period': [pv, pu], 'tol': tol, 'ks': ks, 't0': t0, 'mode': draw(st.sampled_from(['online', 'offline'])),
+            'x': [draw(st.integers(-4, 8)) / 2.0 for _ in range(ng + 1)], 'y': [draw(st.integers(-4, 8)) / 2.0 for _ in range(ng + 1)]}
+
+
+def check_epoch(case):
+    pv, pu = case['period']
+    P = pv * U[pu]                 # period in ns, a multiple of 16
+    stamps = [case['t0']]
+    for k in case['ks']:
+        stamps.append(stamps[-1] + P * (16 + k) // 16)
+    tol = case['tol']
+    exp = expected(stamps, Fraction(P), Fraction(tol) if tol != 0.1 else Fraction(1, 10))
+    labels = ['mode:' + case['mode'], 'epoch-int-stamps', 'tol:%g' % tol]
+    c = dict(case, unit='ns')
+    o = run(c, stamps)
+    desc = 'period=%s%s default unit=ns tolerance=%g mode=%s\ninteger stamps: %s' % (pv, pu, tol, case['mode'], stamps)
+    if o[0] != 'ok':
+        return FAIL('exc:%s@%s' % (o[1], o[4]), desc + '\nraised %s: %s at %s' % (o[1], o[3], o[4]), labels)
+    if o[1] != exp:
+        return FAIL('counter:epoch:%s' % case['mode'], desc + '\nsampling_violation_counter = %r, expected %d' % (o[1], exp), labels)
+    return PASS(len(case['ks']) >= 2, labels)
+
+
+@st.composite
+def reuse_cases(draw):
+    """One object serves two recordings; between them the default unit is changed (no new set_sampling_period())."""
+    a = draw(cases(6))
+    b = draw(cases(6))
+    b['period'] = a['period']
+    b['tol'] = a['tol']
+    b['mode'] = a['mode']
+    # second default unit: any unit in which the period is still dyadic
+    v, pu = a['period']
+    alts = [du for (vv, ppu, du) in CONFIGS if vv == v and ppu == pu]
+    if not alts:
+        alts = [a['unit']]
+    b['unit'] = draw(st.sampled_from(alts))
+    return {'first': a, 'second': b}
+
+
+def check_reuse(case):
+    a, b = case['first'], case['second']
+    v, pu = a['period']
+    labels = ['mode:' + a['mode'], 'reuse', 'unit-change' if a['unit'] != b['unit'] else 'same-unit']
+    Pa = Fraction(v * U[pu], U[a['unit']])
+    Pb = Fraction(v * U[pu], U[b['unit']])
+    if not (dyadic(Pa) and dyadic(Pb)):
+        return PASS(False, labels + ['skipped-non-dyadic'])
+    sa = make_stamps(Pa, a['t0k'], a['ks'])
+    sb = make_stamps(Pb, b['t0k'], b['ks'])
+    tol = a['tol']
+    tf = Fraction(tol) if tol != 0.1 else Fraction(1, 10)
+    ea, eb = expected(sa, Pa, tf), expected(sb, Pb, tf)
+    desc = 'period=%s%s tolerance=%g mode=%s\nfirst recording (unit %s): %s\nsecond recording (unit %s): %s' % (
+        v, pu, tol, a['mode'], a['unit'], [float(x) for x in sa], b['unit'], [float(x) for x in sb])
+    try:
+        kind = 'dt_on' if a['mode'] == 'online' else 'dt_off'
+        spec = build(kind, SPEC, ['x', 'y'], unit=a['unit'], period=(v, pu, tol))
+        if a['mode'] == 'online':
+            for i, t in enumerate(sa):
+                spec.update(float(t), [('x', a['x'][i]), ('y', a['y'][i])])
+            c1 = spec.sampling_violation_counter
+            spec.reset()
+            spec.unit = b['unit']
+            for i, t in enumerate(sb):
+                spec.update(float(t), [('x', b['x'][i]), ('y', b['y'][i])])
+            c2 = spec.sampling_violation_counter
+            want2 = eb
+        else:
+            spec.evaluate({'time': [float(t) for t in sa], 'x': list(a['x']), 'y': list(a['y'])})
+            c1 = spec.sampling_violation_counter
+            spec.unit = b['unit']
+            spec.evaluate({'time': [float(t) for t in sb], 'x': list(b['x']), 'y': list(b['y'])})
+            c2 = spec.sampling_violation_counter - c1      # the offline counter accumulates over evaluate() calls
+            want2 = eb
+    except Exception as e:  # noqa
+        o = exc_outcome(e)
+        return FAIL('reuse-exc:%s@%s' % (o[1], o[4]), desc + '\nraised %s: %s at %s' % (o[1], o[3], o[4]), labels)
+    if c1 != ea:
+        return FAIL('counter:reuse-first:' + a['mode'], desc + '\nafter the first recording the counter is %r, expected %d' % (c1, ea), labels)
+    if c2 != want2:
+        return FAIL('counter:reuse-second:' + a['mode'], desc + '\nthe second recording added %r violations, expected %d' % (c2, want2), labels)
+    return PASS(a['unit'] != b['unit'] and len(b['ks']) >= 1, labels)
+
+
 LANES = [
+    Lane('epoch', lambda tier: epoch_cases(), check_epoch, 1500, 20000, None),
+    Lane('reuse', lambda tier: reuse_cases(), check_reuse, 2000, 30000, None),
     Lane('random', lambda tier: cases(11 if tier == 'quick' else 20), check, 12000, 200000, candidates),
     Lane('exhaustive', None, check, 1, 1, None, custom=exhaustive, shards=16),
 ]
